@@ -103,6 +103,8 @@ SHAPES = {
     "capitalised file names": {"src/Shapes.f90": "module shapes\n  !! doc, see [[Shapes.f90]]\n  integer :: n\ncontains\n  subroutine draw()\n    !! draw doc\n  end subroutine draw\nend module shapes\n",
                                "src/Main.f90": "program main\n  !! main doc\n  use shapes\n  call draw()\nend program main\n"},
     "custom icon": {"src/m.f90": "module m\n  !! doc\n  integer :: n\nend module m\n", "src/p.f90": "program main\n  use m\nend program main\n", "assets/logo-16.png": "png"},
+    "interface function returning a type": {"src/v.f90": "module vecs\n  !! doc\n  implicit none\n  type :: vec\n    !! vec doc\n    real :: x\n  end type vec\n  interface\n    function extv(a) result(r)\n      !! extv doc\n"
+                                                        "      import :: vec\n      real, intent(in) :: a\n      type(vec) :: r\n    end function extv\n  end interface\nend module vecs\n"},
     "kitchen sink": KS,
     "constructors local types and file links": {
         "src/tool.c": "/*! a C helper, see [[geo]] */ int tool(void){return 0;}\n",
